@@ -143,6 +143,13 @@ def mutate(tbyte, fields, muts):
             k, v = fields[i]
             if k == "s":
                 fields[i] = ["L", (iv, v)]
+        elif op == "badint":
+            # one INTEGER field (chosen among the integer fields only: ids, codes, sizes, flags) gets a boundary / random value
+            nidx = [j for j, f in enumerate(fields) if f[0] in ("u", "b", "B", "q", "c")]
+            if nidx:
+                j = nidx[idx % len(nidx)]
+                k = fields[j][0]
+                fields[j][1] = (iv & 0xFF) if k in ("b", "B") else (iv if iv <= COUNT_CAP else iv & COUNT_CAP) if k == "c" else iv
         elif op == "badtext":
             sidx = [j for j, f in enumerate(fields) if f[0] == "s"]
             if sidx:
@@ -507,11 +514,45 @@ PENDING_CALLS = {
 }
 
 
+_A, _B = ("127.0.0.1", 4000), ("10.0.0.1", 22)
+# every application call that waits for the peer's ANSWER: name -> (call(transport, channel), type of the request it sends,
+# category of the answer: "open" CHANNEL_OPEN_CONFIRMATION/FAILURE, "chan" CHANNEL_SUCCESS/FAILURE, "global" REQUEST_SUCCESS/FAILURE)
+ANSWERED_CALLS = {
+    "open_session": (lambda t, ch: t.open_session(timeout=3), 90, "open"),
+    "open_channel:direct-tcpip": (lambda t, ch: t.open_channel("direct-tcpip", _B, _A, timeout=3), 90, "open"),
+    "open_x11_channel": (lambda t, ch: t.open_x11_channel(_A), 90, "open"),
+    "open_forwarded_tcpip_channel": (lambda t, ch: t.open_forwarded_tcpip_channel(_A, _B), 90, "open"),
+    "open_forward_agent_channel": (lambda t, ch: t.open_forward_agent_channel(), 90, "open"),
+    "set_environment_variable": (lambda t, ch: ch.set_environment_variable("LANG", "C"), 98, "chan"),
+    "request_port_forward:0": (lambda t, ch: t.request_port_forward("", 0), 80, "global"),
+    "request_port_forward:8080": (lambda t, ch: t.request_port_forward("127.0.0.1", 8080), 80, "global"),
+    "cancel_port_forward": (lambda t, ch: t.cancel_port_forward("127.0.0.1", 8080), 80, "global"),
+    "global_request": (lambda t, ch: t.global_request("probe@verif", ("x", 1), wait=True), 80, "global"),
+}
+for _n, _f in PENDING_CALLS.items():
+    ANSWERED_CALLS[_n] = ((lambda t, ch, _f=_f: _f(ch)), 98, "chan")
+ANSWER_CATEGORIES = {c: sorted(n for n, v in ANSWERED_CALLS.items() if v[2] == c) for c in ("open", "chan", "global")}
+
+
+def answer_templates(cid, oid):
+    """What a peer answers to a waiting call; cid = the tested side's id of the open channel, oid = of the channel being opened."""
+    return {
+        "open": [
+            (91, [("u", oid), ("u", 5), ("u", 2097152), ("u", 32768)]),
+            (92, [("u", oid), ("u", 1), ("s", b"denied"), ("s", b"en")]),
+            (92, [("u", oid), ("u", 2), ("s", b"Connect failed"), ("s", b"")]),
+        ],
+        "chan": [(99, [("u", cid)]), (100, [("u", cid)])],
+        "global": [(81, [("u", 4242)]), (81, []), (82, [])],
+    }
+
+
 def run_post(ctx, role, msgs, pending_open, record=True, pending=None):
     """msgs: list of payload bytes (already mutated). pending (client role): name of an application call that is kept
     waiting while the messages arrive - "open_session" (older cases: pending_open=True) or one of PENDING_CALLS on the
     open channel. Such a call re-raises (and clears) what get_exception() returns: every value get_exception() hands out
-    is judged, whoever asked; what the pending call raised beyond that is only counted."""
+    is judged, whoever asked, and so is what the pending call itself raises (clause pending-call-raises) - be it because of
+    the messages or because the session has ended (the harness shuts it down at the end of the case)."""
     if pending is None and pending_open:
         pending = "open_session"
     case = {"family": "post", "role": role, "msgs": msgs, "pending_open": pending_open, "pending": pending}
@@ -526,15 +567,16 @@ def run_post(ctx, role, msgs, pending_open, record=True, pending=None):
     th = None
     res = {}
     classes = ["post:" + role]
+    early = False
     try:
         chan = tc.open_session(timeout=10)
         seen_exc = watch_get_exception(tested)
         puppet.raw()
         if pending and role == "client":
-            if pending == "open_session":
-                call, wanted = (lambda: tested.open_session(timeout=3)), 90
-            else:
-                call, wanted = (lambda: PENDING_CALLS[pending](chan)), 98
+            fn, wanted, _cat = ANSWERED_CALLS[pending]
+
+            def call():
+                return fn(tested, chan)
 
             def pending_call():
                 try:
@@ -544,7 +586,7 @@ def run_post(ctx, role, msgs, pending_open, record=True, pending=None):
 
             th = threading.Thread(target=pending_call, daemon=True)
             th.start()
-            wait_log(puppet, lambda lg: any(e[1] == wanted for e in lg) or None, 5)
+            wait_log(puppet, lambda lg: any(e[1] == wanted for e in lg) or bool(res) or None, 5)
             classes.append("pending-call:" + pending)
         for p in msgs:
             seen = len(puppet.log)
@@ -560,22 +602,142 @@ def run_post(ctx, role, msgs, pending_open, record=True, pending=None):
             consumed += 1
             if r == "dead":
                 break
-        ok = True
         if not tested.is_active():
             if th is not None:
                 th.join(5)  # the session ended: the pending call comes back with what get_exception() gave it
             tested.get_exception()
-        if th is not None and ("e" in res or "r" in res):
-            classes.append("pending-call:%s:%s" % (pending, "returned" if "r" in res else "raised-what-get_exception-returned" if any(res["e"] is x for x in seen_exc) else "raised-own-exception"))
-        if record:
-            ctx.case(case, consumed > 0, classes + ["type:%d" % p[0] for p in msgs[: max(consumed, 1)]])
-        for e in list(seen_exc):
-            ok = judge(ctx, case, "get_exception", e) and ok
-        return ok
+        early = th is not None and ("e" in res or "r" in res)
     finally:
         peers.shutdown(tested, puppet)
         if th is not None:
             th.join(5)
+    ok = True
+    if th is not None:
+        if th.is_alive():
+            ctx.inconc("post:pending-call-did-not-return")
+        elif "r" in res:
+            classes.append("pending-call:%s:returned" % pending)
+        else:
+            how = "raised-what-get_exception-returned" if any(res["e"] is x for x in seen_exc) else "raised-own-exception"
+            classes.append("pending-call:%s:%s%s" % (pending, how, "" if early else ":when-the-harness-ended-the-session"))
+            classes.append("pending-call-raised:" + type(res["e"]).__name__)
+    if record:
+        ctx.case(case, consumed > 0, classes + ["type:%d" % p[0] for p in msgs[: max(consumed, 1)]])
+    for e in list(seen_exc):
+        ok = judge(ctx, case, "get_exception", e) and ok
+    if th is not None and "e" in res:
+        ok = judge(ctx, case, "pending-call-raises", res["e"]) and ok
+    return ok
+
+
+def run_reply(ctx, role, rounds, record=True):
+    """Answer-centred session: rounds = [(name of an ANSWERED_CALLS entry, [(answer template index, mutations), ...])].
+    Per round an application call of the tested side (either role) is started and, once its request (CHANNEL_OPEN /
+    CHANNEL_REQUEST / GLOBAL_REQUEST) has reached the puppet, the puppet sends the answers: the first one from the grammar
+    of that call's category, further ones from any category, all addressed with the ids the tested side really uses
+    (Channel.get_id() of the session channel; the sender id read from the CHANNEL_OPEN on the wire).  The next round starts
+    when the call has come back; a call still waiting ends the script (the harness then ends the session).  Judged: every
+    value get_exception() hands out and whatever each call raises."""
+    case = {"family": "reply", "role": role, "rounds": rounds}
+    if role == "client":
+        link, tc, ts, srv = peers.connected_pair(client_cls=peers.VTransport, server_cls=peers.Puppet)
+        tested, puppet = tc, ts
+    else:
+        srv = peers.RecordingServer({"check_auth_password": peers.AUTH_SUCCESSFUL})
+        link, tc, ts, srv = peers.connected_pair(client_cls=peers.Puppet, server_cls=peers.VTransport, server_obj=srv)
+        tested, puppet = ts, tc
+    classes = ["reply:" + role]
+    calls = []  # (name, thread, result dict, came back while the session was up)
+    consumed = 0
+    sent_types = []
+    try:
+        chan = opened = tc.open_session(timeout=10)  # `opened` keeps the puppet's end alive (a collected Channel closes itself)
+        if role != "client":
+            chan = ts.accept(10)
+            if chan is None:
+                raise peers.core.HarnessError("C38 harness: the tested server never got the puppet's session channel")
+        cid = chan.get_id()
+        seen_exc = watch_get_exception(tested)
+        puppet.raw()
+        for rno, (name, answers) in enumerate(rounds):
+            if not tested.is_active():
+                break
+            fn, wanted, cat = ANSWERED_CALLS[name]
+            res = {}
+
+            def pending_call(fn=fn, res=res):
+                try:
+                    res["r"] = fn(tested, chan)
+                except BaseException as e:
+                    res["e"] = e
+
+            start = len(puppet.log)
+            th = threading.Thread(target=pending_call, daemon=True)
+            th.start()
+            calls.append([name, th, res, False])
+            req = wait_log(puppet, lambda lg: next((e for e in lg[start:] if e[1] == wanted), None) or bool(res) or None, 5)
+            classes.append("pending-call:" + name)
+            classes.append("reply:round-%d" % (rno + 1))
+            oid = 0xFFFFFFF0
+            if cat == "open" and isinstance(req, tuple):
+                rd = R.Reader(req[2])
+                rd.string()
+                oid = rd.u32()
+            T = answer_templates(cid, oid)
+            flat = [a for k in sorted(T) for a in T[k]]
+            dead = False
+            for j, (ti, m) in enumerate(answers):
+                t, f = T[cat][ti % len(T[cat])] if j == 0 else flat[ti % len(flat)]
+                p = mutate(t, f, m)
+                seen = len(puppet.log)
+                try:
+                    puppet.send_raw_seq(p)
+                    puppet.send_raw_seq(peers.m_global_request(SENT, True))
+                except Exception:
+                    dead = True
+                    break
+                r = wait_sentinel_or_death(puppet, tested, seen)
+                if r is None:
+                    ctx.inconc("reply:no-reaction")
+                    dead = True
+                    break
+                consumed += 1
+                sent_types.append("type:%d" % p[0])
+                if p != bytes([t]) + enc(f):
+                    classes.append("reply:mutated-answer:%d" % t)
+                if r == "dead":
+                    dead = True
+                    break
+            th.join(5 if not tested.is_active() else 0.05)
+            if res:
+                calls[-1][3] = True
+                classes.append("reply:answer-ended-the-pending-call:" + cat)
+            if dead or not res:
+                break
+        if not tested.is_active():
+            tested.get_exception()
+    finally:
+        peers.shutdown(tested, puppet)
+        for c in calls:
+            c[1].join(5)
+    ok = True
+    for name, th, res, early in calls:
+        if th.is_alive():
+            ctx.inconc("reply:pending-call-did-not-return")
+        elif "r" in res:
+            classes.append("pending-call:%s:returned" % name)
+        else:
+            how = "raised-what-get_exception-returned" if any(res["e"] is x for x in seen_exc) else "raised-own-exception"
+            classes.append("pending-call:%s:%s%s" % (name, how, "" if early else ":when-the-harness-ended-the-session"))
+            classes.append("pending-call-raised:" + type(res["e"]).__name__)
+    if record:
+        ctx.case(case, consumed > 0, classes + sent_types)
+    for e in list(seen_exc):
+        ok = judge(ctx, case, "get_exception", e) and ok
+    for name, th, res, early in calls:
+        if "e" in res:
+            ok = judge(ctx, case, "pending-call-raises", res["e"]) and ok
+    return ok
 
 
 def _quiet(fn):
@@ -888,6 +1050,9 @@ muts = st.lists(mutation, min_size=0, max_size=3)
 # or the original value with one invalid byte spliced in, so that the rest of the message keeps its meaning
 text_mutation = st.tuples(st.just("badtext"), st.integers(0, 40), st.integers(0, 0xFFFF), st.binary(max_size=4), st.just(0))
 text_muts = st.lists(st.one_of(text_mutation, text_mutation.map(lambda m: m), mutation), min_size=0, max_size=2)
+# "badint": one INTEGER field (chosen among the integer fields only) gets a boundary / random value
+int_mutation = st.tuples(st.just("badint"), st.integers(0, 40), st.one_of(st.sampled_from(INTS), st.integers(0, 0xFFFFFFFF)), st.just(b""), st.just(0))
+int_muts = st.lists(st.one_of(int_mutation, int_mutation.map(lambda m: m), mutation), min_size=1, max_size=2)
 
 
 def _msgs_from(templates, max_msgs=3):
@@ -985,6 +1150,10 @@ def run(ctx):
             pending = None
         run_post(ctx, role, msgs, False, pending=pending)
 
+    def body_reply(c):
+        role, rounds = c
+        run_reply(ctx, role, [(ANSWER_CATEGORIES[cat][which % len(ANSWER_CATEGORIES[cat])], [first] + more) for (cat, which), first, more in rounds])
+
     def body_authc(c):
         method, ms, accept_first, early, service_tr = c
         msgs = []
@@ -1017,7 +1186,7 @@ def run(ctx):
         comp = how == "zlib"
         run_wire(ctx, role, cipher, mac, comp, how, off, mask)
 
-    bodies = {"pre": body_pre, "post": body_post, "postc": body_postc, "authc": body_authc, "authk": body_authk, "auths": body_auths, "wire": body_wire}
+    bodies = {"pre": body_pre, "post": body_post, "postc": body_postc, "reply": body_reply, "authc": body_authc, "authk": body_authk, "auths": body_auths, "wire": body_wire}
     strategies = {
         "pre": pre_case(),
         "post": st.tuples(st.sampled_from(["client", "server"]), _msgs_from(post_c, 3), st.sampled_from([None, None, "open_session"] + sorted(PENDING_CALLS))),
@@ -1027,6 +1196,21 @@ def run(ctx):
             st.sampled_from(["client", "server"]),
             st.lists(st.tuples(st.integers(0, len(chan_t) - 1), text_muts), min_size=1, max_size=3),
             st.sampled_from([None] + sorted(PENDING_CALLS) * 2),
+        ),
+        # answer-centred: 1-3 rounds on one session; per round an application call of either side waits (channel open of every kind,
+        # channel request, global request) and the peer's answer to exactly that call is built from the grammar with
+        # integer-preferring mutations (ids, reason codes, window / packet sizes, ports)
+        "reply": st.tuples(
+            st.sampled_from(["client", "client", "server"]),
+            st.lists(
+                st.tuples(
+                    st.tuples(st.sampled_from(["open", "open", "chan", "global"]), st.integers(0, 11)),
+                    st.tuples(st.integers(0, 5), int_muts),
+                    st.lists(st.tuples(st.integers(0, 15), int_muts), min_size=0, max_size=1),
+                ),
+                min_size=1,
+                max_size=3,
+            ),
         ),
         "authc": st.tuples(
             st.sampled_from(["none", "password", "publickey", "publickey-rsa", "publickey-rsa", "publickey-rsa", "interactive"]),
@@ -1071,9 +1255,11 @@ def run(ctx):
                     run_pre(ctx, role, script, blocking)
     # families are interleaved (one draw picks the family) so that a budget hit thins all of them evenly
     weights = {"pre": 6, "post": 4, "postc": 4, "authc": 3, "authk": 3, "auths": 6, "wire": 2}
-    fams = [f for f in os.environ.get("C38_FAMILIES", "pre,post,postc,authc,authk,auths,wire").split(",") if f in bodies]  # diagnostics only
+    fams = [f for f in os.environ.get("C38_FAMILIES", "pre,post,postc,authc,authk,auths,wire,reply").split(",") if f in bodies]  # diagnostics only
     tagged = []
     for f in fams:
+        if f not in weights:
+            continue
         # distinct strategy objects: hypothesis' one_of de-duplicates identical ones, so repetition by `* n` would not weight
         tagged += [strategies[f].map(lambda c, f=f: (f, c)) for _ in range(weights[f])]
     import time as _time
@@ -1092,7 +1278,12 @@ def run(ctx):
             if d > float(os.environ.get("C38_SLOW") or 1e9):
                 print("SLOW %.1fs %s %r" % (d, fc[0], fc[1]))
 
-    ctx.explore(st.one_of(*tagged), timed, ctx.scale(760, 9000), shrink=False, seed_offset=1)
+    # the answer-centred family runs on its own (own seed stream, first: a budget hit later on cannot starve it); its cases are paid
+    # for by the interleaved families (760 -> 680 quick cases)
+    if "reply" in fams:
+        ctx.explore(strategies["reply"].map(lambda c: ("reply", c)), timed, ctx.scale(90, 1100), shrink=False, seed_offset=2)
+    if tagged:
+        ctx.explore(st.one_of(*tagged), timed, ctx.scale(680, 8100), shrink=False, seed_offset=1)
     ctx.note("family_cases_and_seconds", {k: [v[0], round(v[1], 1)] for k, v in sorted(spent.items())})
 
 
@@ -1102,6 +1293,8 @@ def replay(ctx, case):
         run_pre(ctx, case["role"], case["script"], case["blocking"], gex_pack=case.get("gex_pack", False))
     elif fam == "post":
         run_post(ctx, case["role"], case["msgs"], case["pending_open"], pending=case.get("pending"))
+    elif fam == "reply":
+        run_reply(ctx, case["role"], case["rounds"])
     elif fam == "authc":
         run_authc(ctx, case["method"], [(a, p) for a, p in case["msgs"]], early=case.get("early", ()), service_transport=case.get("service_transport", False))
     elif fam == "auths":
